@@ -465,6 +465,12 @@ class ModRef:
     def __repr__(self):
         return f"<{self.kind} {self.name}>"
 
+    def __eq__(self, o):
+        return isinstance(o, ModRef) and (self.kind, self.name) == (o.kind, o.name)
+
+    def __hash__(self):
+        return hash((self.kind, self.name))
+
 
 class Closure:
     def __init__(self, node, env, interp, rel, bound_self=None, cls=None):
